@@ -199,6 +199,7 @@ func main() {
 	pairKinds := map[string]int{}
 	listLens := map[int]int{}
 	scaleHist := map[int]int{}
+	concCount := 0
 	for i := 0; i < a.N && timeouts < maxTimeouts; i++ {
 		r := root.Fork()
 		general := i%10 == 7 || i%20 == 19
@@ -215,6 +216,51 @@ func main() {
 			classes["pair_float"]++
 			pairKinds["float:"+kindNames[ka]+"x"+kindNames[kb]]++
 			fmt.Fprintln(w, strings.Join(pairFields(i, "float", kindNames[ka]+"x"+kindNames[kb], ga, gb), "\t"))
+			continue
+		}
+		if i%10 == 5 || i%30 == 9 {
+			// ---------------- concurrent edges: 3..6 segments through one non-vertex point
+			cclass := "conc"
+			sc := 0
+			if r.Chance(1, 4) {
+				sc = scaleExp(r)
+				cclass = fmt.Sprintf("conc@%d", sc)
+			}
+			if i%30 == 9 {
+				ms, found := concList(r, concCount)
+				concCount++
+				if found {
+					classes["conc_relation_found"]++
+				}
+				gs := make([]geom.Geometry, len(ms))
+				fields := []string{fmt.Sprintf("%d", i), "N", cclass, fmt.Sprintf("%d", len(ms))}
+				for j, m := range ms {
+					if sc != 0 {
+						m = scaleNode(m, sc)
+					}
+					gs[j] = m.Build()
+					fields = append(fields, lib.Dump(gs[j]))
+				}
+				m, err := call(func() (geom.Geometry, error) { return geom.UnionMany(gs) })
+				fields = append(fields, res("M", m, err))
+				if f, ok := overlayDump("OVM", geom.NewGeometryCollection(gs).AsGeometry(), geom.Geometry{}); ok {
+					fields = append(fields, f)
+				}
+				classes["many_conc"]++
+				fmt.Fprintln(w, strings.Join(fields, "\t"))
+				continue
+			}
+			na, nb, shape, found := concPair(r, concCount)
+			concCount++
+			if found {
+				classes["conc_relation_found"]++
+			}
+			if sc != 0 {
+				na, nb = scaleNode(na, sc), scaleNode(nb, sc)
+			}
+			classes["pair_conc"]++
+			pairKinds["conc:"+shape]++
+			fmt.Fprintln(w, strings.Join(pairFields(i, cclass, shape, na.Build(), nb.Build()), "\t"))
 			continue
 		}
 		if i%5 == 4 {
